@@ -9,6 +9,7 @@ pub mod c05;
 pub mod c06;
 pub mod c07;
 pub mod c07b;
+pub mod c07c;
 pub mod c08;
 pub mod c09;
 pub mod c10;
